@@ -108,6 +108,7 @@ PROPS = {
     },
     'C05': {
         'sidecars': ['contracts/c05_patches.py'],
+        'more_sidecar_groups': [['contracts/c05_tracer.py']],
         'native': 'c05', 'native_arg': {'prop': 'C05'}, 'ground': False,
         'level': 'proof',
         'explanation': '_execute verified from the real source with compile/exec as abstract callees raising ANY exception '
